@@ -364,6 +364,7 @@ structure KImg where
   pending : Nat := 0         -- encodings accumulated in `k.buf` (Resize appends, the upload resets)
   need : Bool := false       -- oracle side: the implementation reported a successful encode not yet seen in `U=`
   implPx : String := ""      -- oracle side: pixel size `WxH` of the implementation's last successful encode ("" = none yet)
+  opaqueNo : Option Nat := none   -- `kimgo N …`: the harness's pixel formula with alpha 255 (byte i of Pix = 37·i + 11·N + 200 mod 256)
 
 structure St where
   active : Bool := false
@@ -449,10 +450,22 @@ def parseAt (t : String) : Option (Nat × Int × Int) :=
   | _ => none
 
 /-- Image data is identified by the pixel size of the PNG transmitted (`"WxH"`; 0 = undecodable). -/
-def dataCode (dims : String) : Nat :=
+def dataCode (dims0 : String) : Nat :=
+  let dims := (dims0.splitOn "#").headD ""
   match dims.splitOn "x" with
   | [a, b] => match a.toNat?, b.toNat? with | some a, some b => a * 1000003 + b + 1 | _, _ => 0
   | _ => 0
+
+/-- FNV-1a (32 bit) over the (R, G, B) bytes of an opaque stored image, row major — what the harness computes from the
+    PNG the implementation transmitted. -/
+def fnvPixels (img : Scaler.Img8) : Nat :=
+  (List.range (img.w * img.h)).foldl (fun h i =>
+    let p := img.px.getD i ⟨0, 0, 0, 0⟩
+    [p.r, p.g, p.b].foldl (fun h c => ((h ^^^ c) * 16777619) % 4294967296) h) 2166136261
+
+def hex8 (n : Nat) : String :=
+  let ds := (Nat.toDigits 16 n)
+  String.ofList (List.replicate (8 - ds.length) '0' ++ ds)
 
 def keyFunB (l : List Placement) : Bool :=
   l.all fun p => l.all fun q => !(KittyTerm.key p == KittyTerm.key q) || p == q
@@ -549,6 +562,10 @@ def kstep (s : St) (op : List String) (impl : String) : St × String :=
     match natList? [n, w, h] with
     | some [n, w, h] => ({ s with imgs := s.imgs ++ [(n, { wPix := w, hPix := h })] }, s!"ok\t{impl}\t-")
     | _ => (s, bad)
+  | ["kimgo", n, w, h] =>   -- an opaque image: the model computes the digest of the PNG's pixels
+    match natList? [n, w, h] with
+    | some [n, w, h] => ({ s with imgs := s.imgs ++ [(n, { wPix := w, hPix := h, opaqueNo := some n })] }, s!"ok\t{impl}\t-")
+    | _ => (s, bad)
   | ["kimgs", n, w, h] =>   -- the same image as a crop of a larger one (F420): nothing changes
     match natList? [n, w, h] with
     | some [n, w, h] => ({ s with imgs := s.imgs ++ [(n, { wPix := w, hPix := h })] }, s!"ok\t{impl}\t-")
@@ -607,9 +624,24 @@ def kstep (s : St) (op : List String) (impl : String) : St × String :=
         -- model (round 4): a successful encode runs the regenerated upload statements of `Resize` on the image's state
         let modelEncoded := k1.pending > k.pending
         let id := ((s.img? n).map (·.1)).getD 0
+        -- the picture the model transmits for an opaque image: the scaler model on the harness's pixels, as a digest
+        let digest : String :=
+          match k.opaqueNo with
+          | some no =>
+            if w < 0 ∨ h < 0 then "" else
+            let src : Scaler.Img8 := ⟨.nrgba, k.wPix, k.hPix,
+              Array.ofFn (n := k.wPix * k.hPix) fun i =>
+                ⟨(37 * (4 * i.val) + 11 * no + 200) % 256, (37 * (4 * i.val + 1) + 11 * no + 200) % 256,
+                 (37 * (4 * i.val + 2) + 11 * no + 200) % 256, 255⟩⟩
+            let gw := ImageTerm.termCellW s.xpix s.cols
+            let gh := ImageTerm.termCellH s.ypix s.rows
+            match Scaler.resizeImg floatOps src w.toNat h.toNat gw gh with
+            | .ok img => "#" ++ hex8 (fnvPixels img)
+            | .error _ => ""
+          | none => ""
         let s1 : St := if modelEncoded then
             { s with kb := KittyTerm.update s.kb id (KittyTerm.resizeGen (s.kb id) s.encPx.size),
-                     encPx := s.encPx.push (((fields mcanon)[2]?.getD "px=?").drop 3).toString }
+                     encPx := s.encPx.push ((((fields mcanon)[2]?.getD "px=?").drop 3).toString ++ digest) }
           else s
         -- (whatever the implementation says about pending data: a resize to a non-empty pixel size has new data)
         let implPxNow := (((fields impl)[2]?.getD "px=?").drop 3).toString
